@@ -46,8 +46,8 @@ for k in range(39):
 # append follows an empty value end in "CBMC out of memory" (measured: b_k04, c_k13), so "append to an empty value" is outside the enumerated states.
 RB = dict(crate="ohkami", strength="bounded", timeout=900, unwindset=UW, tier="quick")
 HARNESSES += [
-    H("c03_complete_204_contract", functions=["response::Response::complete"], clauses=["status 204 => no Content-Length, Content::None, size updated; for every prior (Content-Length present?, body present?)"],
-      bound="finite case split over (Content-Length present, payload present)", **RB),
+] + [H(f"c03_complete_204_contract_k{k:02d}", functions=["response::Response::complete"], clauses=["status 204 => no Content-Length, Content::None, size updated"],
+      bound=f"shape (Content-Length present: {bool(k & 1)}, payload present: {bool(k & 2)}), 2 symbolic body bytes", **dict(RB, unwindset=None)) for k in range(4)] + [
     # thorough tier: decided in 190-230 s when run alone, but "CBMC out of memory" in 2 of 5 runs beside other queries
     H("c03_set_payload_contract", tier_override="thorough", functions=["response::Response::set_payload", "response::Response::set_text", "response::Response::drop_content", "ohkami_lib::num::itoa"],
       clauses=["Content-Length == decimal(body length), Content-Type set, size invariant, re-set replaces, drop_content removes both"],
